@@ -17,7 +17,7 @@ MANIFEST = {
           'real MetricPickleReceiver / MetricLineReceiver. Pickle: name, timestamp and value identical (sign of zero '
           'included). Line: name identical, timestamp truncated to whole seconds, |delta value| <= max(5e-11, 1 ulp). '
           'The decoded sequence must equal the queued sequence for every queue length 0..7 and every message size.',
-  'note': 'protobuf client/listener not covered (library absent). NaN values are excluded (filtered by the listener).',
+  'note': 'protobuf client/listener not covered (library absent). NaN values are excluded (filtered by the listener). Also: messages of up to 0.56 MB; an exception out of the sending client is a violation.',
 }
 
 NAMES = ['a.b', 'x=1;y', 'é.ü', '日.本', '😀.z', 'a' * 200]
